@@ -18,6 +18,7 @@ from __future__ import annotations
 
 import os
 import re
+import sys
 import time
 import typing
 from concurrent.futures import ThreadPoolExecutor
@@ -129,6 +130,8 @@ def plan(tier: str) -> typing.List[Run]:
                 runs.append(r._replace(ident="real-is-target"))
             # the usual root login: the supplementary group list is exactly the primary group
             runs.append(r._replace(ident="groups-are-own-gid"))
+            # the group database lists the target account as a member of further groups
+            runs.append(r._replace(ident="member-of-groups"))
     for r in list(runs):
         if r.ident != "plain":
             continue
@@ -340,6 +343,48 @@ class Env:
         self.cert = spdriver.CERT
         self.key = spdriver.KEY
         self.n = 0
+        # a group database in which the target account is listed as a member of other groups (what "usermod -aG"
+        # leaves); substituted for /etc/group in a private mount namespace of the one server process tree
+        self.member_group_file = os.path.join(scratch.path, "group-with-memberships")
+        lines, added = [], []
+        with open("/etc/group") as fp:
+            for ln in fp.read().splitlines():
+                f = ln.split(":")
+                if len(f) == 4 and f[0] not in (GROUP, "root") and len(added) < 3 and f[2].isdigit() and int(f[2]) > 0:
+                    f[3] = ",".join([x for x in f[3].split(",") if x] + [USER])
+                    added.append(int(f[2]))
+                lines.append(":".join(f))
+        with open(self.member_group_file, "w") as fp:
+            fp.write("\n".join(lines) + "\n")
+        os.chmod(self.member_group_file, 0o644)
+        self.member_gids = added
+        self.member_ns_ok = _mount_ns_works(self.member_group_file) if added else False
+
+
+def _enter_group_namespace(group_file: str):
+    """preexec function: private mount namespace with `group_file` bound over /etc/group."""
+    import ctypes
+    libc = ctypes.CDLL(None, use_errno=True)     # loaded in the parent: the child of a threaded process only calls
+    gf = os.fsencode(group_file)
+
+    def pre():
+        if libc.unshare(0x00020000):                                   # CLONE_NEWNS
+            raise OSError(ctypes.get_errno(), "unshare")
+        if libc.mount(b"none", b"/", None, 0x4000 | 0x40000, None):    # MS_REC | MS_PRIVATE
+            raise OSError(ctypes.get_errno(), "mount private")
+        if libc.mount(gf, b"/etc/group", None, 0x1000, None):   # MS_BIND
+            raise OSError(ctypes.get_errno(), "mount bind")
+    return pre
+
+
+def _mount_ns_works(group_file: str) -> bool:
+    import subprocess
+    try:
+        r = subprocess.run([sys.executable, "-c", "import grp;print(sum(1 for g in grp.getgrall() if %r in g.gr_mem))" % USER],
+                           preexec_fn=_enter_group_namespace(group_file), capture_output=True, text=True, timeout=30)
+        return r.returncode == 0 and r.stdout.strip().isdigit() and int(r.stdout.strip()) >= 1
+    except Exception:
+        return False
 
 
 def make_root(path: str, token: str) -> None:
@@ -349,8 +394,14 @@ def make_root(path: str, token: str) -> None:
     os.makedirs(os.path.join(path, "sub"), exist_ok=True)
     with open(os.path.join(path, "sub", "beta.txt"), "w") as fp:
         fp.write("beta %s\n" % token)
-    # the document root of a public server can hold anything, e.g. an account database of its own in which
-    # the configured names mean root: names are resolved against the system's, before the root changes
+    # the document root of a public server can hold anything, e.g. a directory named like the root itself
+    # (a root given relatively must not be resolved twice) ...
+    nested = os.path.join(path, os.path.basename(path))
+    os.makedirs(nested, exist_ok=True)
+    with open(os.path.join(nested, "nested.txt"), "w") as fp:
+        fp.write("nested %s\n" % token)
+    # ... or an account database of its own in which the configured names mean root: names are resolved
+    # against the system's, before the root changes
     os.makedirs(os.path.join(path, "etc"), exist_ok=True)
     with open(os.path.join(path, "etc", "passwd"), "w") as fp:
         fp.write("root:x:0:0:root:/:/bin/sh\n%s:x:0:0:not the real one:/:/bin/sh\n" % USER)
@@ -372,7 +423,8 @@ def execute(env: Env, r: Run, tag: str, token: str, kind: str = "unrelated") -> 
     root = os.path.join(wd, "root")
     make_root(root, token)
     # every spelling the configuration parser documents for a boolean
-    yes = {"unrelated": "yes", "prefix-sibling": "on", "inside-root": "true", "root-itself": "1"}[kind]
+    yes = {"unrelated": "yes", "prefix-sibling": "on", "inside-root": "true", "root-itself": "1",
+           "relative-root": "yes", "relative-dot": "on"}[kind]
     no = ("no", "off", "false", "0")[sum(map(ord, tag)) % 4]
     over: typing.Dict[str, typing.Optional[str]] = {"usechroot": yes if r.chroot else no}
     if r.detach:
@@ -387,6 +439,8 @@ def execute(env: Env, r: Run, tag: str, token: str, kind: str = "unrelated") -> 
     pk: typing.Dict[str, typing.Any] = {"extra_groups": env.start_groups}
     if r.ident == "groups-are-own-gid":
         pk["extra_groups"] = [os.getgid()]
+    if r.ident == "member-of-groups":
+        pk["preexec_fn"] = _enter_group_namespace(env.member_group_file)
     if r.ident == "target-root":
         pk["group"] = 4242
     elif r.ident == "real-is-target":
@@ -407,6 +461,13 @@ def execute(env: Env, r: Run, tag: str, token: str, kind: str = "unrelated") -> 
         start_cwd = os.path.join(root, "sub")
     elif kind == "root-itself":
         start_cwd = root
+    elif kind == "relative-root":
+        # the root option names the directory relatively to where the daemon is started
+        start_cwd = wd
+        over["root"] = os.path.basename(root)
+    elif kind == "relative-dot":
+        start_cwd = root
+        over["root"] = "."
     sp = spdriver.ServerProcess(over, root=root, servertype=r.servertype, tls=r.tls,
                                 strace_expr=TRACE_EXPR, inject=inject, cwd=start_cwd,
                                 workdir=wd, name="srv",
@@ -596,7 +657,7 @@ def judge(env: Env, r: Run, o: Obs, token: str) -> typing.Tuple[
             add("C19/root-not-rewritten", expected=exp_line, observed=m.group(1) if m else None)
         if o.client_errors:
             inc.append("client-side error in %s: %s" % (r.sig(), o.client_errors[0]))
-        if o.listing is not None and selectors(o.listing) != {"/alpha.txt", "/sub"}:
+        if o.listing is not None and selectors(o.listing) != {"/alpha.txt", "/sub", "/root"}:
             add("C19/serves-wrong-root", request="/", response=o.listing[:300])
         want = ("alpha %s\n" % token).encode()
         if o.document is not None and o.document != want:
@@ -858,6 +919,12 @@ def main() -> int:
 
     with Scratch("c19") as scratch:
         env = Env(scratch)
+        if not env.member_ns_ok:
+            # no private mount namespace here: the group database cannot be substituted for one process tree
+            chk.count("member_of_groups_runs_unavailable", sum(1 for r in runs if r.ident == "member-of-groups"))
+            runs = [r for r in runs if r.ident != "member-of-groups"]
+        else:
+            chk.count("member_of_groups_runs", sum(1 for r in runs if r.ident == "member-of-groups"))
 
         def one(item: typing.Tuple[int, Run]):
             i, r = item
@@ -866,7 +933,7 @@ def main() -> int:
             # a chrooting start-up is additionally tried from every kind of start directory
             kinds = ["unrelated"]
             if mode == "strace" and r.chroot and r.fault is None:
-                kinds = ["prefix-sibling", "inside-root", "root-itself", "unrelated"]
+                kinds = ["prefix-sibling", "inside-root", "root-itself", "relative-root", "relative-dot", "unrelated"]
             for k in kinds[:-1]:
                 o = execute(env, r, "run%03d-%s" % (i, k), token, kind=k)
                 wit, inc = judge(env, r, o, token)
